@@ -28,12 +28,13 @@ META = {
     "ready": True,
     "level": "model_checking",
     "technique": "TLA+ spec of the as-needed modifier stack and of DT_NEEDED selection (property rule, GNU ld's sequential rule, transcription of wild) enumerated exhaustively by TLC in small scope; enumerated link lines replayed into the real wild, GNU ld and lld and DT_NEEDED compared",
-    "level_text": "TLC enumerates every link line in the bound (all flag sequences of up to 3/5 --as-needed/--no-as-needed/--push-state/--pop-state tokens around two libraries; two or three libraries x main.o x a second object or archive member in every command-line order x strong/weak/no references x a name defined by several files) and checks that wild's stack machine equals the declarative modifier state and that the transcription of wild's loading rule yields the property's DT_NEEDED or GNU ld's, except in one exactly characterised class. A seeded sample of the enumerated cases (hundreds in quick, thousands in thorough) is linked with the real wild, GNU ld 2.40 and lld 14 in three output kinds; both reference rules of the spec are validated against the real linkers and wild's DT_NEEDED must equal one of them.",
+    "level_text": "TLC enumerates every link line in the bound (all flag sequences of up to 3/4 --as-needed/--no-as-needed/--whole-archive/--no-whole-archive/--push-state/--pop-state tokens around two libraries; two or three libraries x main.o x a second object or archive member in every command-line order x strong/weak/no references x a name defined by several files) and checks that wild's stack machine equals the declarative modifier state and that the transcription of wild's loading rule yields the property's DT_NEEDED or GNU ld's, except in one exactly characterised class. A seeded sample of the enumerated cases (hundreds in quick, thousands in thorough) is linked with the real wild, GNU ld 2.40 and lld 14 in three output kinds; both reference rules of the spec are validated against the real linkers and wild's DT_NEEDED must equal one of them.",
     "level_note": "Helper libraries have no undefined references, so the shared->shared activation rule of GNU ld is out of scope; one as-needed library per soname; bounds as stated; sampled replay in quick.",
     "engine": "tlc",
 }
 EXPECTED_ACTIONS = ["Parse", "LoadOne", "Finish"]
-FLAG = {"as": "--as-needed", "noas": "--no-as-needed", "push": "--push-state", "pop": "--pop-state"}
+FLAG = {"as": "--as-needed", "noas": "--no-as-needed", "push": "--push-state", "pop": "--pop-state",
+        "wa": "--whole-archive", "nowa": "--no-whole-archive"}
 GC = ["-XX:ParallelGCThreads=4"]
 KINDS = {"exe": [], "pie": ["-pie"], "shared": ["-shared", "-z", "defs"]}
 
@@ -175,8 +176,16 @@ def run(ctx):
     build_wild()
     records.sort(key=lambda r: (r["idx"], str(r["tokens"])))
     budget = 300 if ctx.quick else 2000
-    if len(records) > budget:
-        records = rng.sample(records, budget)
+    # as-needed libraries inside --whole-archive regions are always replayed (a seeded subset of them)
+    must = [r for r in records if r.get("must")]
+    rest = [r for r in records if not r.get("must")]
+    if not must:
+        raise ToolError("no link line with an as-needed library inside a --whole-archive region was enumerated")
+    must = rng.sample(must, min(len(must), 60 if ctx.quick else 400))
+    if len(rest) > budget - len(must):
+        rest = rng.sample(rest, budget - len(must))
+    records = must + rest
+    stats_must = len(must)
     model_errors, replayed, stale, wild_failed = [], 0, 0, []
     stats = {"conform_final": 0, "conform_gnu_only": 0, "known_dev": 0, "error_lines": 0, "kinds": {}}
     with scratch("c37") as d:
@@ -303,6 +312,7 @@ def run(ctx):
                 break
         cov["binding_demo"] = demo
     cov["traces_validated_against_impl"] = replayed
+    stats["asneeded_in_whole_archive_cases"] = stats_must
     cov["replay_stats"] = stats
     cov["operational_model_stale"] = stale
     cov["reference_links"] = {"gnu_ld": len(results), "lld": len(results)}
